@@ -134,7 +134,7 @@ impl Grapheme {
 
         #[allow(clippy::needless_range_loop)]
         for i in 0..characters.len() {
-            let mut character = characters[i].clone();
+            let mut character = escape_literal_backslashes(&characters[i]);
 
             for char_to_escape in CHARS_TO_ESCAPE.iter() {
                 character =
@@ -145,10 +145,6 @@ impl Grapheme {
                 .replace('\n', "\\n")
                 .replace('\r', "\\r")
                 .replace('\t', "\\t");
-
-            if character == "\\" {
-                character = "\\\\".to_string();
-            }
 
             characters[i] = character;
         }
@@ -174,6 +170,25 @@ impl Grapheme {
             .map(|it| format!("\\u{{{:x}}}", it))
             .join("")
     }
+}
+
+/// Escapes every literal backslash in `s` but keeps those backslashes
+/// which introduce a character class such as `\\d`.
+fn escape_literal_backslashes(s: &str) -> String {
+    let mut result = String::with_capacity(s.len());
+    let mut chars = s.chars().peekable();
+
+    while let Some(c) = chars.next() {
+        if c != '\\' {
+            result.push(c);
+        } else if let Some(class) = chars.next_if(|it| "dDsSwW".contains(*it)) {
+            result.push(c);
+            result.push(class);
+        } else {
+            result.push_str("\\\\");
+        }
+    }
+    result
 }
 
 impl Display for Grapheme {
